@@ -31,7 +31,7 @@ ANCHORS = [
     "acnportal.acnsim.network.charging_network:ChargingNetwork.is_feasible",
 ]
 REQUIRED = ["accepted_schedules_judged", "boundary_points", "vertex_points", "structure_walks", "site:caltech", "site:caltech-via-deprecated-alias", "site:jpl", "site:office001",
-            "evse:basic", "evse:real", "cap:default", "cap:scaled", "cap:zero", "sim_columns_judged", "linear_mode_points", "multi_period_matrices", "multi_period_accepted", "long_plans_with_one_overloading_column", "networks_printed_compared_hashed_before_use", "transformer_power_within_1pct_of_rating",
+            "evse:basic", "evse:real", "cap:default", "cap:scaled", "cap:zero", "sim_columns_judged", "linear_mode_points", "multi_period_matrices", "multi_period_accepted", "long_plans_with_one_overloading_column", "networks_printed_compared_hashed_before_use", "same_array_object_checked_again_after_in_place_edit", "site_factory_called_with_positional_arguments", "transformer_power_within_1pct_of_rating",
             "panel_or_pod_binding"]
 BUDGET_S = {"quick": 240, "thorough": 3000}
 VLL = 120.0 * math.sqrt(3.0)
@@ -68,9 +68,15 @@ def build_site(site, basic, caps, alias=None):
             from acnportal.acnsim.network.sites import CaltechACN
             with contextlib.redirect_stdout(io.StringIO()):  # the alias prints a deprecation note
                 return CaltechACN(basic_evse=basic, transformer_cap=caps[0]) if alias == "kw" else CaltechACN(basic, 208, caps[0])
+        if alias == "positional":  # the documented parameter order: (basic_evse, voltage, transformer_cap)
+            return caltech_acn(basic, 208, caps[0])
         return caltech_acn(basic_evse=basic, transformer_cap=caps[0])
     if site == "office001":
+        if alias == "positional":
+            return office001_acn(basic, 208, caps[0])
         return office001_acn(basic_evse=basic, transformer_cap=caps[0])
+    if alias == "positional":  # (basic_evse, voltage, first_transformer_cap, third_fourth_transformer_cap)
+        return jpl_acn(basic, 208, caps[0], caps[1])
     return jpl_acn(basic_evse=basic, first_transformer_cap=caps[0], third_fourth_transformer_cap=caps[1])
 
 
@@ -92,7 +98,8 @@ def cases(seed, tier):
             for tag, caps in capsets:
                 for r in range(reps if tag != "zero" else 1):
                     out.append({"site": site, "basic": basic, "caps": list(caps), "captag": tag, "ndirs": nd, "seed": rng.randrange(1 << 30),
-                                "sim": r == 0, "alias": (rng.choice(["kw", "pos"]) if site == "caltech" and r == 1 else None)})
+                                "sim": r == 0, "alias": (rng.choice(["kw", "pos"]) if site == "caltech" and r == 1 else
+                                                         "positional" if (r == 2 or tag == "zero") else None)})
     return out
 
 
@@ -188,7 +195,9 @@ def run_case(case, obs):
     nrng = np.random.default_rng(case["seed"])
     alias = case.get("alias")
     net = build_site(site, basic, caps, alias=alias)
-    if alias:
+    if alias == "positional":
+        obs.ev("site_factory_called_with_positional_arguments")
+    elif alias:
         obs.ev("site:caltech-via-deprecated-alias")
     if case["seed"] % 3 == 0:
         # the client prints the network, compares it with itself, with a second build and with a JSON copy, hashes it ...
@@ -327,6 +336,25 @@ def run_case(case, obs):
                 for j in range(T):
                     judge_schedule(obs, net, W, ids, ang, [float(x) for x in S[:, j]], dict(wit, periods=T, column=j, linear=lin),
                                    "multi-period schedule, period %d of %d" % (j, T))
+    # ---- ONE array object is checked, edited in place (rows of two station groups swapped: same total, same shape) and checked
+    # again: the verdict belongs to the contents, not to the object
+    if accepted_pts:
+        B = np.zeros((n, 1))
+        for _ in range(6):
+            s_ = accepted_pts[rng.randrange(len(accepted_pts))]
+            B[:, 0] = s_
+            net.is_feasible(B)
+            perm_ = nrng.permutation(n)
+            B[:, 0] = s_[perm_]  # same multiset of currents, other stations
+            v_same = bool(net.is_feasible(B))
+            v_copy = bool(net.is_feasible(B.copy()))
+            obs.ev("same_array_object_checked_again_after_in_place_edit")
+            if v_same != v_copy:
+                obs.violate("verdict_depends_on_the_array_object", f"is_feasible says {v_same} for an array object it has seen before (edited in "
+                            f"place since) and {v_copy} for a fresh copy with the same contents", **wit)
+                break
+            if v_same:
+                judge_schedule(obs, net, W, ids, ang, [float(x) for x in B[:, 0]], wit, "array object re-used after an in-place edit")
     # ---- plans of hundreds to thousands of periods, idle except for ONE overloading column, placed at the end, at the start and
     # on both sides of block seams: if the network accepts such a plan, that column is judged like any accepted schedule
     if over_pts and case["seed"] % 3 == 0:
